@@ -49,6 +49,10 @@ func c09AccuracyExact(r float64, a int64, b int, f32 bool) bool {
 }
 
 func runC09(c *core.Ctx) {
+	if isDigestMode(c.Mode) {
+		convDigests(c, func(cv *dyn.ConvOp) bool { return fixedToFloat(cv) || floatToFixed(cv) })
+		return
+	}
 	tasks := fixedTasks(fixedToFloat, !c.Quick(), 16)
 	for ti, t := range tasks {
 		if !c.Mine(ti) {
